@@ -358,6 +358,7 @@ class SimEnv:
         self.label_fn = None                # fn(header, payload) -> label suffix
         self.on_fault = None                # fn(kind) called when a link fault is injected
         self.on_rx = None                   # fn(link_index) called when receive_packet returns a packet
+        self.on_rx_wait = None              # fn(link_index) called when receive_packet is entered
         self.on_tx = None                   # fn(link_index, header, data, status) at every send_packet
         self.hello = False                  # True: an unsolicited console packet is queued at connect
 
@@ -496,6 +497,8 @@ def make_driver_class():
 
         def receive_packet(self, wait=0):
             import queue
+            if self.env.on_rx_wait:
+                self.env.on_rx_wait(self.index)
             try:
                 if wait == 0:
                     pk = self.in_queue.get(False)
